@@ -4,7 +4,7 @@
 From Coq Require Import List NArith Bool Arith Lia.
 From Conductor Require Import Model.ArchiveOut.
 Import ListNotations.
-Open Scope N_scope.
+Local Open Scope N_scope.
 
 Lemma refused_trace : forall p f, refused (handle_output_path p) = true -> archive_main p f = [1].
 Proof. intros p f H. unfold archive_main. rewrite H. reflexivity. Qed.
